@@ -48,3 +48,113 @@ def replay(ctx: Ctx, payload: Dict[str, Any]) -> bool:
 
 def replay_known(ctx: Ctx, entry: Dict[str, Any]) -> Optional[bool]:
     return SP.replay_known(ctx, ID, entry)
+
+
+# ----------------------------------------------------------------------------------------
+# "input files by the name given on the command line": the container built for an input / constraint file argument
+# carries the argument itself as its name (that name is what annotations print)
+
+def _t1_input_names() -> None:
+    """fail-closed reading of cmdline._create_input_reqs and RequirementsFile.from_file"""
+    import ast
+    import translate as T
+    f = T.func(T.parse("req_compile/cmdline.py"), "_create_input_reqs")
+    ok = False
+    for n in ast.walk(f):
+        if isinstance(n, ast.If) and isinstance(n.test, ast.Call) and ast.unparse(n.test) == "os.path.isfile(input_arg)":
+            r = n.body[0]
+            if isinstance(r, ast.Return) and ast.unparse(r.value) == "RequirementsFile.from_file(input_arg)":
+                ok = True
+    if not ok:
+        raise T.TranslateError("_create_input_reqs no longer hands the argument itself to RequirementsFile.from_file")
+    # the only re-binding of input_arg allowed is the strip() on entry
+    for n in ast.walk(f):
+        if isinstance(n, ast.Assign) and any(isinstance(t, ast.Name) and t.id == "input_arg" for t in n.targets):
+            if ast.unparse(n.value) != "input_arg.strip()":
+                raise T.TranslateError("_create_input_reqs re-binds input_arg")
+    ff = None
+    for n in ast.walk(T.klass(T.parse("req_compile/containers.py"), "RequirementsFile")):
+        if isinstance(n, ast.FunctionDef) and n.name == "from_file":
+            ff = n
+    if ff is None or not any(isinstance(n, ast.Return) and ast.unparse(n.value).startswith("cls(str(full_path), reqs") for n in ast.walk(ff)):
+        raise T.TranslateError("RequirementsFile.from_file no longer names the container str(full_path)")
+
+
+_sp_translate = translate
+
+
+def translate(ctx: Ctx) -> Dict[str, str]:  # noqa: F811
+    _t1_input_names()
+    return _sp_translate(ctx)
+
+
+def input_name_cases(ctx: Ctx):
+    """(spelling given on the command line, name the container carries, name printed in an annotation)"""
+    import os
+    import solverlib
+    M = solverlib.mods()
+    CP, C, D, E, R, U = M
+    import req_compile.cmdline as CL
+    tmp = ctx.tmpdir() / "names"
+    (tmp / "sub" / "deep").mkdir(parents=True, exist_ok=True)
+    (tmp / "reqs.txt").write_text("a\n")
+    (tmp / "sub" / "more.txt").write_text("a\n")
+    (tmp / "sub" / "deep" / "x.in").write_text("a\n")
+    spellings = ["reqs.txt", "./reqs.txt", "sub/more.txt", "sub//more.txt", "./sub/./more.txt", "sub/../reqs.txt", "sub/deep/../more.txt",
+                 str(tmp / "reqs.txt"), str(tmp) + "//sub/more.txt", " reqs.txt ", "sub/deep/x.in", ".//sub/deep/x.in"]
+    out = []
+    cwd = os.getcwd()
+    os.chdir(tmp)
+    try:
+        Repo = solverlib.make_repo_class(R, C, E, U)
+        for sp in spellings:
+            try:
+                cont = CL._create_input_reqs(sp, [])
+                name = cont.name
+                results, roots = CP.perform_compile([cont], Repo({"a": [("a", "1.0", [], True, False)]}, False))
+                ann = sorted(solverlib.parse_explanation(s)[0] for n in results.visit_nodes(roots) if n.metadata is not None and not n.metadata.meta
+                             for s in D.build_explanation(n))
+            except Exception as ex:  # noqa: BLE001
+                name, ann = "EXC " + type(ex).__name__, []
+            out.append((sp, name, ann))
+    finally:
+        os.chdir(cwd)
+    return out
+
+
+_sp_correspondence = correspondence
+
+
+def correspondence(ctx: Ctx) -> None:  # noqa: F811
+    _sp_correspondence(ctx)
+    bad = []
+    for sp, name, ann in input_name_cases(ctx):
+        ctx.count("input-name-spelling")
+        ctx.case(key=("input-name", sp), nontrivial=sp.strip() != __import__("os").path.normpath(sp.strip()))
+        if name != sp.strip() or ann != [sp.strip()]:
+            bad.append({"argument": sp, "container_name": name, "annotation_names": ann})
+    ctx._input_names_bad = bad  # type: ignore[attr-defined]
+    if bad:
+        ctx.mismatch("input-name", bad[0]["argument"], {"name": bad[0]["container_name"], "annotation": bad[0]["annotation_names"]}, bad[0]["argument"].strip())
+
+
+_sp_search = search
+
+
+def search(ctx: Ctx):  # noqa: F811
+    bad = getattr(ctx, "_input_names_bad", [])
+    if bad:
+        b = bad[0]
+        return {"input": {"kind": "input-name", "argument": b["argument"]},
+                "why": f"input file given as {b['argument']!r} is named {b['container_name']!r} (annotations: {b['annotation_names']}) instead of the name given on the command line"}
+    return _sp_search(ctx)
+
+
+_sp_replay = replay
+
+
+def replay(ctx: Ctx, payload):  # noqa: F811
+    fi = payload.get("failing_input") or {}
+    if isinstance(fi.get("input"), dict) and fi["input"].get("kind") == "input-name":
+        return any(sp == fi["input"]["argument"] and (name != sp.strip() or ann != [sp.strip()]) for sp, name, ann in input_name_cases(ctx))
+    return _sp_replay(ctx, payload)
